@@ -4,7 +4,8 @@ Model (JSON-serialisable; the top-level package name is NOT part of the model, t
 
     case = {"kind": "pkg", "layout": "module" | "package", "mods": [mod, ...]}      # mods in import order
     mod  = {"path": ["a"] | [] | ["sub"] | ["sub", "c"] | ["sub", "deep", "core", "leaf"], "init": bool, "doc": str | None, "body": [item, ...],
-            "typing": bool}     # typing: the module starts with `from typing import Generic, Protocol, TypeVar; T = TypeVar("T")`
+            "typing": bool, "sentinels": bool}     # sentinels: header `_MISSING = object(); class _Marker: pass; _UNSET = _Marker()`
+           # typing: the module starts with `from typing import Generic, Protocol, TypeVar; T = TypeVar("T")`
     item = {"t": "attr",  "name": str, "value": <literal source>}
          | {"t": "func",  "name": str, "params": [param, ...], "ret": <annotation source> | None, "doc": str | None,
             "async": bool, "deco": None | "staticmethod" | "classmethod" | "property" | "cached_property" | "fcached_property",
@@ -84,6 +85,9 @@ PARAM_NAMES = ["a", "b", "c", "d", "e", "x", "y", "z", "k", "i", "j"]
 
 VALUES = ["1", "0", "-1", "'s'", "None", "True", "(1, 2)", "[1]", "{'k': 1}", "1.5", "b'x'", "...", "''", "()"]
 DEFAULTS = ["0", "1", "None", "'s'", "()", "True", "-1", "1.5"]
+# sentinel defaults (module flag "sentinels": header `_MISSING = object()`, `class _Marker: pass`, `_UNSET = _Marker()`): objects with
+# the address-bearing default repr and no __name__; optional parameters for CPython and for both agents
+SENTINELS = ["_MISSING", "_UNSET"]
 ANNOTATIONS = [None, None, None, "int", "str", "'Fwd'", "list[int]", "int | None", "bool"]
 
 DOC_LINES = ["Summary.", "Details: more", "x", "Args:", "a: thing", "café ✓", "quo\"te ' back\\slash", ">>> 1 + 1", ""]
@@ -142,6 +146,7 @@ class _Builder:
             PROTOCOL_ID: {"mro": [PROTOCOL_ID, GENERIC_ID], "nested": {}, "params": False, "proto": True, "orig": False},
         }
         self.next_cid = 0
+        self.sentinels = False  # does the module being generated have the sentinel header?
         self.modenvs: list[dict] = []  # per module: final name -> ref
         self.mods: list[dict] = []
 
@@ -216,6 +221,11 @@ class _Builder:
             text = text + self.pick(["\n", "\n    ", "  ", "\n\n"])
         return text
 
+    def default(self) -> str:
+        if self.sentinels and self.chance(35):
+            return self.pick(SENTINELS)
+        return self.pick(DEFAULTS)
+
     def params(self, first: str | None) -> list[dict]:
         d = self.draw
         names = list(d(st.permutations(PARAM_NAMES)))
@@ -235,11 +245,11 @@ class _Builder:
                 out.append({"n": first, "k": k, "d": None, "a": None})
                 first_default = max(first_default, 1)
                 continue
-            out.append({"n": names.pop(), "k": k, "d": self.pick(DEFAULTS) if i >= first_default else None, "a": self.pick(ANNOTATIONS)})
+            out.append({"n": names.pop(), "k": k, "d": self.default() if i >= first_default else None, "a": self.pick(ANNOTATIONS)})
         if va:
             out.append({"n": self.pick(["args", names.pop()]), "k": "va", "d": None, "a": self.pick(ANNOTATIONS)})
         for _ in range(n_ko):
-            out.append({"n": names.pop(), "k": "ko", "d": self.pick(DEFAULTS) if self.chance(50) else None, "a": self.pick(ANNOTATIONS)})
+            out.append({"n": names.pop(), "k": "ko", "d": self.default() if self.chance(50) else None, "a": self.pick(ANNOTATIONS)})
         if vk:
             out.append({"n": self.pick(["kwargs", names.pop()]), "k": "vk", "d": None, "a": self.pick(ANNOTATIONS)})
         return out
@@ -530,6 +540,10 @@ class _Builder:
         if typing:
             # names bound by the typing header (reserved before the imports are drawn: nothing rebinds them)
             env.update({"Generic": {"k": "extclass"}, "Protocol": {"k": "extclass"}, "TypeVar": {"k": "extclass"}, "T": {"k": "typevar"}})
+        self.sentinels = self.chance(35)
+        meta["sentinels"] = self.sentinels
+        if self.sentinels:
+            env.update({"_MISSING": {"k": "sentinel"}, "_Marker": {"k": "sentinelclass"}, "_UNSET": {"k": "sentinel"}})
         body = self.imports(i, env, is_top_init, layout_pkg)
         uses_functools = False
         uses_cached = False
@@ -630,7 +644,7 @@ class _Builder:
             self.top_idx = next(i for i, m in enumerate(self.mods) if m["init"] and not m["path"])
         for i in range(len(self.mods)):
             self.module(i, layout == "package")
-        mods = [{"path": m["path"], "init": m["init"], "doc": m["doc"], "body": m["body"], "typing": m["typing"]} for m in self.mods]
+        mods = [{"path": m["path"], "init": m["init"], "doc": m["doc"], "body": m["body"], "typing": m["typing"], "sentinels": m["sentinels"]} for m in self.mods]
         return {"kind": "pkg", "layout": layout, "mods": mods}
 
 
@@ -785,6 +799,8 @@ def render(case: dict, top: str) -> dict[str, str]:
         if m.get("typing"):
             out.append("from typing import Generic, Protocol, TypeVar")
             out.append('T = TypeVar("T")')
+        if m.get("sentinels"):
+            out += ["_MISSING = object()", "class _Marker:", "    pass", "_UNSET = _Marker()"]
         if _uses(m["body"], "fcached_property"):
             out.append("import functools")
         if _uses(m["body"], "cached_property"):
@@ -918,6 +934,8 @@ def describe(case: dict):
                     cls.add(f"param:{p['k']}" + ("=default" if p["d"] is not None else ""))
                     if p["a"]:
                         cls.add("param:annotated")
+                    if p["d"] in SENTINELS:
+                        cls.add("param:sentinel-default:" + p["k"])
                 doc = it["doc"]
                 if doc is not None:
                     cls.add("doc:function")
@@ -972,6 +990,8 @@ def describe(case: dict):
         for it in m["body"]:
             if it["t"] == "from":
                 module_names |= {a or n for n, a in it["names"]}
+        if m.get("sentinels"):
+            cls.add("sentinel-header")
         if m.get("typing"):
             cls.add("typing-header")
         if m["doc"] is not None:
